@@ -1,0 +1,70 @@
+//go:build verif
+
+package ua
+
+import (
+	"reflect"
+	"sort"
+)
+
+// Verification hooks for the binary codec (build tag "verif"). Add-only; not compiled in normal builds.
+
+// VerifRegEntry is one entry of a type registry: the registry key (NodeID.String() of the id)
+// and the registered Go type (a pointer type).
+type VerifRegEntry struct {
+	Key  string
+	Type reflect.Type
+}
+
+func verifEntries(r *TypeRegistry) []VerifRegEntry {
+	r.mu.Lock()
+	defer r.mu.Unlock()
+	var out []VerifRegEntry
+	for k, t := range r.types {
+		out = append(out, VerifRegEntry{Key: k, Type: t})
+	}
+	sort.Slice(out, func(i, j int) bool { return out[i].Key < out[j].Key })
+	return out
+}
+
+// VerifServiceRegistry lists the service registry sorted by key.
+func VerifServiceRegistry() []VerifRegEntry { return verifEntries(svcreg) }
+
+// VerifExtensionObjectRegistry lists the extension-object registry sorted by key.
+func VerifExtensionObjectRegistry() []VerifRegEntry { return verifEntries(eotypes) }
+
+// VerifVariantTypes returns the Variant type-id table (type id -> Go type of a scalar value).
+func VerifVariantTypes() map[TypeID]reflect.Type {
+	out := map[TypeID]reflect.Type{}
+	for k, v := range variantTypeIDToType {
+		out[k] = v
+	}
+	return out
+}
+
+// VerifVariantFields exposes the unexported state of a Variant.
+func VerifVariantFields(m *Variant) (mask byte, arrayLength, arrayDimensionsLength int32, arrayDimensions []int32, value interface{}) {
+	return m.mask, m.arrayLength, m.arrayDimensionsLength, m.arrayDimensions, m.value
+}
+
+// VerifMakeVariant builds a Variant from raw state (no consistency checks).
+func VerifMakeVariant(mask byte, arrayLength, arrayDimensionsLength int32, arrayDimensions []int32, value interface{}) *Variant {
+	return &Variant{mask: mask, arrayLength: arrayLength, arrayDimensionsLength: arrayDimensionsLength, arrayDimensions: arrayDimensions, value: value}
+}
+
+// VerifNodeIDFields exposes the unexported state of a NodeID.
+func VerifNodeIDFields(n *NodeID) (mask byte, ns uint16, nid uint32, bid []byte, gid *GUID) {
+	return byte(n.mask), n.ns, n.nid, n.bid, n.gid
+}
+
+// VerifMakeNodeID builds a NodeID from raw state (no consistency checks).
+func VerifMakeNodeID(mask byte, ns uint16, nid uint32, bid []byte, gid *GUID) *NodeID {
+	return &NodeID{mask: NodeIDType(mask), ns: ns, nid: nid, bid: bid, gid: gid}
+}
+
+// VerifNull and friends expose codec constants.
+const (
+	VerifNull    = null
+	VerifF32QNaN = f32qnan
+	VerifF64QNaN = f64qnan
+)
